@@ -67,8 +67,9 @@ int main(int argc, char** argv) {
       ns.push_back(n);
     }
     unsigned phases     = H.thorough ? (unsigned)rng.pick({50, 500, 3000, 10000}) : (unsigned)rng.pick({50, 400, 2500});
-    if (VERIF_TSAN) phases = std::min(phases, 400u);
-    phases = std::min<unsigned>(phases, (unsigned)H.paramInt("maxphases", 1000000));
+    phases += (unsigned)rng.below(4); // odd and even phase counts (sense-reversing state differs at reinit)
+    if (VERIF_TSAN) phases = std::min(phases, 400u + (unsigned)rng.below(2));
+    phases = std::min<unsigned>(phases, (unsigned)H.paramInt("maxphases", 1000000) + (unsigned)rng.below(2));
     unsigned delayMode  = (unsigned)rng.below(5); // 0 none,1 one slow thread,2 random,3 alternate fast/slow,4 slow after leave
     unsigned delayProb  = (unsigned)rng.pick({0, 1, 4, 16});  // per-256
     unsigned pointProb  = (unsigned)rng.pick({0, 0, 256, 2048, 8192});
